@@ -707,6 +707,42 @@ void h_iintDivide_wf(void)
 	VREACH();
 }
 
+/* ---- quotient and remainder for a CONSTANT two-digit divisor (one job per divisor) ---------------------
+ * a = q*b + r, 0 <= r < b, on the real iintDivide (Knuth D: normalisation, qhat estimate and its two corrections,
+ * multiply-subtract, add-back).  With the divisor a constant of the job every multiplier and divider in the unit and
+ * in the spec has one constant operand, which the SAT back end can decide; a symbolic divisor cannot be (the single step
+ * nh*B+nl == q*d+r is already undecided).  Dividend: every value of <= 3 digits (so 1 or 2 quotient digits). */
+#ifndef DV_B0
+#define DV_B0 0xFFFFFFFFU
+#define DV_B1 0x80000000U
+#endif
+void h_iintDivide_const(void)
+{
+	INPUT(BIntS, sent); g_sent = sent;
+	IN_STORED(u); IN_STORED(v); IN_STORED(q); IN_STORED(r);
+	ASSUME(u->placec <= u->placea && u->placec <= 3 && u->placec >= 2 && BS_WF_ST(u) && !u->isNeg && BS_TOP_NZ(u));
+	ASSUME(v->placea >= 3 && !v->isNeg);	/* room for a carry digit during normalisation (by value there is none) */
+	v->placec = 2; v->placev[0] = (BIntS) (DV_B0); v->placev[1] = (BIntS) (DV_B1);
+	/* bintDivide: n = Placec(b), m = Placec(a) - n; q = bintAllocPlaces(m+1), r = bintAllocPlaces(n+m+1) */
+	ASSUME(q->placea == u->placec - v->placec + 1 && q->placec == q->placea);
+	ASSUME(r->placea == u->placec + 1 && r->placec == r->placea);
+	ASSUME(!q->isNeg && !r->isNeg);		/* bintAllocPlaces clears the sign (iintDivide compares its work copy in r with v through bintLT) */
+	bs_u mu = BS_MAG(u), mv = (((bs_u) (DV_B1)) << 32) | (bs_u) (DV_B0);
+	iintDivide(q, r, u, v);
+	/* bintDivide then strips leading zeros of both results; do the same before reading the values */
+	while (q->placec > 0 && q->placev[q->placec - 1] == 0) q->placec--;
+	while (r->placec > 0 && r->placev[r->placec - 1] == 0) r->placec--;
+	bs_u mq = q->placec == 0 ? 0 : BS_MAG(q), mr = r->placec == 0 ? 0 : BS_MAG(r);
+#ifndef CANARY_iintDivide
+	CHECK("iintDivide: a == q*b + r", mq * mv + mr == mu && mq <= (((bs_u) 1) << 64) - 1);
+	CHECK("iintDivide: 0 <= r < b", mr < mv);
+#else	/* canary: remainder may equal the divisor */
+	CHECK("iintDivide canary", mq * mv + mr == mu + mv);
+#endif
+	CHECK("iintDivide: no digit stored beyond the capacity", SLACK_OK(q) && SLACK_OK(r) && SLACK_OK(u) && SLACK_OK(v));
+	VREACH();
+}
+
 #ifdef NATIVE_REPLAY
 V_NATIVE_MAIN(ENTRY)
 #endif
